@@ -55,6 +55,33 @@ theorem read_write_roundtrip (P : Prog) (hP : SchemaOK P) (sidx : Nat) (obj : Go
     simp [hr]
   · simp [write, ht, bind]
 
+/-- **Read skips unknown field ids** wherever they occur: at any state of the Read loop (i.e. at any
+position of the field stream), a well-formed field (depth ≤ 64, the protocol's Skip limit) whose id is
+not in the schema is consumed without changing the object under construction or the required-field
+bookkeeping. -/
+theorem read_skips_unknown (rd : Ty → Bytes → Option (GoVal × Bytes)) (defs : List FieldDef) (g id : Nat)
+    (u : WVal) (rest : Bytes) (cur : List GoVal) (seen : List Bool) (hid : id < 256 ^ 2)
+    (hnf : findField defs id = none) (hwf : WF u) (hd : u.depth ≤ 64) :
+    readFieldsWith rd defs (g + 1) (u.ttype.code :: (be 2 id ++ (encW u ++ rest))) cur seen =
+      readFieldsWith rd defs g rest cur seen :=
+  read_step_unknown rd defs g id u rest cur seen hid hnf hwf hd
+
+/-- **Read skips a known id carrying a different wire type** (retagged field), leaving that field at
+its initial value and everything else undisturbed. -/
+theorem read_retag_skips (rd : Ty → Bytes → Option (GoVal × Bytes)) (defs : List FieldDef) (g id j : Nat)
+    (f : FieldDef) (u : WVal) (rest : Bytes) (cur : List GoVal) (seen : List Bool) (hid : id < 256 ^ 2)
+    (hf : findField defs id = some (j, f)) (hne : f.ty.ttype.code ≠ u.ttype.code) (hwf : WF u) (hd : u.depth ≤ 64) :
+    readFieldsWith rd defs (g + 1) (u.ttype.code :: (be 2 id ++ (encW u ++ rest))) cur seen =
+      readFieldsWith rd defs g rest cur seen :=
+  read_step_mistyped rd defs g id j f u rest cur seen hid hf hne hwf hd
+
+/-- **Read fails when a required field is absent**: at STOP the loop succeeds iff every required
+field's isset flag is up (and a flag is only ever raised by reading that field with its own type). -/
+theorem read_required_missing (rd : Ty → Bytes → Option (GoVal × Bytes)) (defs : List FieldDef) (g : Nat)
+    (r : Bytes) (cur : List GoVal) (seen : List Bool) :
+    readFieldsWith rd defs (g + 1) (0 :: r) cur seen = (if requiredOk defs seen then some (cur, r) else none) := by
+  simp [readFieldsWith]
+
 /-- a union is written only when exactly one member is set -/
 theorem union_write_refuses (P : Prog) (sidx : Nat) (sd : StructDef) (fs : List GoVal) (bs : Bytes)
     (hsd : P.struct? sidx = some sd) (hu : sd.kind = 1) (h : write P sidx (.strct fs) = .ok bs) :
